@@ -93,6 +93,9 @@ type Engine struct {
 	extra       map[string]interface{}
 	lastPrefScore int
 	prefs       []*Term // soft preferences for counterexample models (ndPrefer)
+	joinMerge   bool
+	rpoCache    map[*ssa.Function][]int
+	JoinMerges  int
 	lazyBranch  bool
 	cutFn       string // ndAtFirstLoop: function whose first loop header ends the path
 	fnStats     map[string][3]int
@@ -121,6 +124,7 @@ type Frame struct {
 	loops  map[int]int
 	defers []deferred
 	jumped bool
+	entered bool // block-entry work (phis, loop accounting) done for the current block
 }
 
 type deferred struct {
@@ -130,7 +134,7 @@ type deferred struct {
 }
 
 func (f *Frame) fork() *Frame {
-	n := &Frame{fn: f.fn, locals: make(map[ssa.Value]Value, len(f.locals)+8), block: f.block, prev: f.prev, idx: f.idx, loops: make(map[int]int, len(f.loops))}
+	n := &Frame{fn: f.fn, locals: make(map[ssa.Value]Value, len(f.locals)+8), block: f.block, prev: f.prev, idx: f.idx, loops: make(map[int]int, len(f.loops)), entered: f.entered}
 	for k, v := range f.locals {
 		n.locals[k] = v
 	}
@@ -313,8 +317,7 @@ func (e *Engine) CallFn(st *State, fn *ssa.Function, args []Value, in ssa.Instru
 	var outs []Outcome
 	pc := &pathCtx{e: e, work: &work, outs: &outs, depth: depth, entryLen: entryLen}
 	for len(work) > 0 {
-		it := work[len(work)-1]
-		work = work[:len(work)-1]
+		it := e.nextItem(&work)
 		pc.run(it)
 		if len(outs) > e.cfg.MaxPaths {
 			unsupported("too many paths in %s", fn)
@@ -323,7 +326,13 @@ func (e *Engine) CallFn(st *State, fn *ssa.Function, args []Value, in ssa.Instru
 	if len(outs) > 1 {
 		for i := range outs {
 			if outs[i].Panic == nil {
+				if debugCheck {
+					outs[i].St.checkSlices("before-collect in " + fn.String())
+				}
 				outs[i].St.collect(entryNext, outs[i].Ret)
+				if debugCheck {
+					outs[i].St.checkSlices("after-collect in " + fn.String())
+				}
 			}
 		}
 	}
@@ -432,11 +441,176 @@ func (e *Engine) callClosure(st *State, f VFunc, args []Value, in ssa.Instructio
 	var outs []Outcome
 	pc := &pathCtx{e: e, work: &work, outs: &outs, depth: depth, entryLen: entryLen}
 	for len(work) > 0 {
-		it := work[len(work)-1]
-		work = work[:len(work)-1]
+		it := e.nextItem(&work)
 		pc.run(it)
 	}
 	return e.mergeAll(entryLen, outs)
+}
+
+// ---------- scheduling and merging at join points ----------
+
+var debugCheck = os.Getenv("GOSYM_CHECK") != ""
+
+// rpo: reverse-post-order number of every block of fn (entry = 0)
+func (e *Engine) rpo(fn *ssa.Function) []int {
+	if r, ok := e.rpoCache[fn]; ok {
+		return r
+	}
+	if e.rpoCache == nil {
+		e.rpoCache = map[*ssa.Function][]int{}
+	}
+	n := len(fn.Blocks)
+	seen := make([]bool, n)
+	var post []int
+	var dfs func(b *ssa.BasicBlock)
+	dfs = func(b *ssa.BasicBlock) {
+		seen[b.Index] = true
+		for _, s := range b.Succs {
+			if !seen[s.Index] {
+				dfs(s)
+			}
+		}
+		post = append(post, b.Index)
+	}
+	if n > 0 {
+		dfs(fn.Blocks[0])
+	}
+	r := make([]int, n)
+	for i := range r {
+		r[i] = n // unreachable blocks last
+	}
+	for i, bi := range post {
+		r[bi] = len(post) - 1 - i
+	}
+	e.rpoCache[fn] = r
+	return r
+}
+
+// nextItem removes and returns the pending item that is earliest in reverse post-order (so
+// that every path that can reach a join block arrives there before the join is executed),
+// after merging into it every other pending item waiting at the start of the same block.
+func (e *Engine) nextItem(work *[]*item) *item {
+	w := *work
+	if !e.joinMerge || len(w) == 1 {
+		it := w[len(w)-1]
+		*work = w[:len(w)-1]
+		return it
+	}
+	r := e.rpo(w[0].fr.fn)
+	best := len(w) - 1
+	for i := len(w) - 1; i >= 0; i-- {
+		if r[w[i].fr.block.Index] < r[w[best].fr.block.Index] {
+			best = i
+		}
+	}
+	it := w[best]
+	w = append(w[:best], w[best+1:]...)
+	if it.fr.entered && it.fr.idx <= numPhis(it.fr.block) {
+		// merge the other items that sit at the start of the same block
+		for i := 0; i < len(w); {
+			o := w[i]
+			if o.fr.block == it.fr.block && o.fr.entered && o.fr.idx == it.fr.idx {
+				if m, ok := mergeItems(it, o); ok {
+					it = m
+					e.JoinMerges++
+					w = append(w[:i], w[i+1:]...)
+					continue
+				}
+			}
+			i++
+		}
+	}
+	*work = w
+	return it
+}
+
+func numPhis(b *ssa.BasicBlock) int {
+	n := 0
+	for _, in := range b.Instrs {
+		if _, ok := in.(*ssa.Phi); !ok {
+			break
+		}
+		n++
+	}
+	return n
+}
+
+// mergeItems merges two paths of the same activation that have arrived at the start of the
+// same block (phis already evaluated). ok=false leaves both untouched.
+func mergeItems(a, b *item) (*item, bool) {
+	if len(a.st.writes) != len(b.st.writes) || len(a.st.allocs) != len(b.st.allocs) || len(a.fr.defers) != 0 || len(b.fr.defers) != 0 {
+		return nil, false
+	}
+	for i := range a.st.writes {
+		if a.st.writes[i] != b.st.writes[i] {
+			return nil, false
+		}
+	}
+	// only paths with the same loop history are merged (merging different iterations of a
+	// loop would turn concrete induction variables into symbolic ones)
+	if len(a.fr.loops) != len(b.fr.loops) {
+		return nil, false
+	}
+	for k, v := range a.fr.loops {
+		if b.fr.loops[k] != v {
+			return nil, false
+		}
+	}
+	// cheap shape pre-check (no terms are built for pairs that cannot merge anyway)
+	for k, va := range a.fr.locals {
+		if vb, ok := b.fr.locals[k]; ok && !canMerge(va, vb) {
+			return nil, false
+		}
+	}
+	for id, oa := range a.st.heap {
+		if ob, ok := b.st.heap[id]; ok && oa != ob {
+			if oa.Kind != ob.Kind || !types.Identical(oa.Typ, ob.Typ) || (oa.Kind == KCell && !canMerge(oa.Val, ob.Val)) || len(oa.Elems) != len(ob.Elems) || len(oa.Entries) != len(ob.Entries) {
+				return nil, false
+			}
+		}
+	}
+	// longest common prefix of the two path conditions
+	lcp := 0
+	for lcp < len(a.st.pc) && lcp < len(b.st.pc) && a.st.pc[lcp] == b.st.pc[lcp] {
+		lcp++
+	}
+	ga := And(a.st.pc[lcp:]...)
+	if ga.IsTrue() || And(b.st.pc[lcp:]...).IsTrue() {
+		return nil, false // the suffix must tell the two paths apart
+	}
+	locals := make(map[ssa.Value]Value, len(a.fr.locals))
+	for k, va := range a.fr.locals {
+		vb, ok := b.fr.locals[k]
+		if !ok {
+			continue // defined on one path only: dead after the join (SSA dominance)
+		}
+		m, ok := mergeVal(ga, va, vb)
+		if !ok {
+			return nil, false
+		}
+		locals[k] = m
+	}
+	oa := Outcome{St: a.st}
+	ob := Outcome{St: b.st}
+	mo, ok := mergeOutcomes(lcp, &oa, &ob)
+	if !ok {
+		return nil, false
+	}
+	if debugCheck {
+		a.st.checkSlices("before-merge-a")
+		b.st.checkSlices("before-merge-b")
+		mo.St.checkSlices("after-merge")
+	}
+	fr := &Frame{fn: a.fr.fn, locals: locals, block: a.fr.block, prev: a.fr.prev, idx: a.fr.idx, loops: make(map[int]int, len(a.fr.loops)), entered: true}
+	for k, v := range a.fr.loops {
+		fr.loops[k] = v
+	}
+	for k, v := range b.fr.loops {
+		if v > fr.loops[k] {
+			fr.loops[k] = v
+		}
+	}
+	return &item{st: mo.St, fr: fr}, true
 }
 
 // ---------- operand evaluation ----------
@@ -572,77 +746,99 @@ func (pc *pathCtx) term(it *item, v ssa.Value) *Term {
 
 // ---------- main path loop ----------
 
+// enterBlock performs the block-entry work for the item's current block (loop accounting,
+// ndAtFirstLoop cut, simultaneous phi evaluation against the predecessor edge). It returns
+// false when the path ends here.
+func (pc *pathCtx) enterBlock(it *item) bool {
+	e := pc.e
+	blk := it.fr.block
+	// loop bound per frame: count visits of blocks that are targets of back edges; entering a
+	// loop header from outside the loop (re)starts its count (nested loops)
+	if it.fr.prev != nil && it.fr.loops[blk.Index] > 0 && !blk.Dominates(it.fr.prev) {
+		it.fr.loops[blk.Index] = 0
+	}
+	it.fr.loops[blk.Index]++
+	if it.fr.loops[blk.Index] > e.cfg.Unroll+1 {
+		if e.lazyBranch && e.solver.Check(append(append([]*Term(nil), it.st.pc...), e.exclude...)) == Unsat {
+			e.PathsEnded++
+			return false
+		}
+		e.Unwinding = append(e.Unwinding, fmt.Sprintf("%s block %d (bound %d)", it.fr.fn, blk.Index, e.cfg.Unroll))
+		e.PathsEnded++
+		return false
+	}
+	if e.cutFn != "" && it.fr.prev != nil && it.fr.fn.Name() == e.cutFn && it.fr.loops[blk.Index] == 1 && isLoopHeader(blk) {
+		// cut: report the []byte value flowing into the loop header from the entry edge
+		var got Value
+		n := 0
+		for _, in := range blk.Instrs {
+			ph, ok := in.(*ssa.Phi)
+			if !ok {
+				break
+			}
+			if isByteSlice(ph.Type()) {
+				for i, p := range blk.Preds {
+					if p == it.fr.prev {
+						got = pc.val(it, ph.Edges[i])
+						n++
+					}
+				}
+			}
+		}
+		if n != 1 {
+			unsupported("ndAtFirstLoop: %d []byte values flow into the first loop of %s", n, it.fr.fn)
+		}
+		*pc.outs = append(*pc.outs, Outcome{St: it.st, Ret: got, Cut: true})
+		e.PathsEnded++
+		return false
+	}
+	// phis are evaluated simultaneously against the predecessor edge
+	np := 0
+	var vals []Value
+	for _, in := range blk.Instrs {
+		ph, ok := in.(*ssa.Phi)
+		if !ok {
+			break
+		}
+		found := false
+		for i, p := range blk.Preds {
+			if p == it.fr.prev {
+				vals = append(vals, pc.val(it, ph.Edges[i]))
+				found = true
+				break
+			}
+		}
+		if !found {
+			unsupported("phi without matching predecessor in %s", it.fr.fn)
+		}
+		np++
+	}
+	for i := 0; i < np; i++ {
+		it.fr.locals[blk.Instrs[i].(*ssa.Phi)] = vals[i]
+	}
+	it.fr.idx = np
+	it.fr.entered = true
+	e.Instrs += np
+	return true
+}
+
+// run executes the item until its path ends or until it arrives at the start of another
+// block while other items of the same activation are pending (then it is put back on the
+// work list so that paths meeting at a join point can be merged there).
 func (pc *pathCtx) run(it *item) {
 	e := pc.e
 	for {
-		blk := it.fr.block
-		it.fr.jumped = false
-		if it.fr.idx == 0 {
-			// loop bound per frame: count visits of blocks that are targets of back edges
-			it.fr.loops[blk.Index]++
-			if it.fr.loops[blk.Index] > e.cfg.Unroll+1 {
-				if e.lazyBranch && e.solver.Check(append(append([]*Term(nil), it.st.pc...), e.exclude...)) == Unsat {
-					e.PathsEnded++
-					return
-				}
-				e.Unwinding = append(e.Unwinding, fmt.Sprintf("%s block %d (bound %d)", it.fr.fn, blk.Index, e.cfg.Unroll))
-				e.PathsEnded++
+		if !it.fr.entered {
+			if !pc.enterBlock(it) {
+				return
+			}
+			if len(*pc.work) > 0 && e.joinMerge {
+				*pc.work = append(*pc.work, it)
 				return
 			}
 		}
-		if it.fr.idx == 0 && e.cutFn != "" && it.fr.prev != nil && it.fr.fn.Name() == e.cutFn && it.fr.loops[blk.Index] == 1 && isLoopHeader(blk) {
-			// cut: report the []byte value flowing into the loop header from the entry edge
-			var got Value
-			n := 0
-			for _, in := range blk.Instrs {
-				ph, ok := in.(*ssa.Phi)
-				if !ok {
-					break
-				}
-				if isByteSlice(ph.Type()) {
-					for i, p := range blk.Preds {
-						if p == it.fr.prev {
-							got = pc.val(it, ph.Edges[i])
-							n++
-						}
-					}
-				}
-			}
-			if n != 1 {
-				unsupported("ndAtFirstLoop: %d []byte values flow into the first loop of %s", n, it.fr.fn)
-			}
-			*pc.outs = append(*pc.outs, Outcome{St: it.st, Ret: got, Cut: true})
-			e.PathsEnded++
-			return
-		}
-		if it.fr.idx == 0 {
-			// phis are evaluated simultaneously against the predecessor edge
-			np := 0
-			var vals []Value
-			for _, in := range blk.Instrs {
-				ph, ok := in.(*ssa.Phi)
-				if !ok {
-					break
-				}
-				found := false
-				for i, p := range blk.Preds {
-					if p == it.fr.prev {
-						vals = append(vals, pc.val(it, ph.Edges[i]))
-						found = true
-						break
-					}
-				}
-				if !found {
-					unsupported("phi without matching predecessor in %s", it.fr.fn)
-				}
-				np++
-			}
-			for i := 0; i < np; i++ {
-				it.fr.locals[blk.Instrs[i].(*ssa.Phi)] = vals[i]
-			}
-			it.fr.idx = np
-			e.Instrs += np
-		}
+		blk := it.fr.block
+		it.fr.jumped = false
 		for it.fr.idx < len(blk.Instrs) {
 			in := blk.Instrs[it.fr.idx]
 			it.fr.idx++
@@ -664,6 +860,7 @@ func (pc *pathCtx) jump(it *item, to *ssa.BasicBlock) {
 	it.fr.block = to
 	it.fr.idx = 0
 	it.fr.jumped = true
+	it.fr.entered = false
 }
 
 // step executes one instruction; false = this path is finished (or was handed to the worklist).
